@@ -242,6 +242,9 @@ def run(ck: common.Check, replay=None):
         if o and o[0].startswith("VCex"):
             rep.update({"path": o[0], "traces": o[1] if len(o) > 1 else ""})
             ck.violation({"case": name}, "coroutine with reset and its reference differ on an input sequence", rep)
+        elif o and o[0].startswith("VFuel"):
+            ck.obligations -= 1      # undecided for lack of resources (see explore.run_cases)
+            ck.cov.setdefault("undecided_state_space_above_budget", []).append(name)
         else:
             rep["log"] = (out + err + out2 + err2)[-1500:]
             ck.violation({"case": name}, "reset obligation not discharged", rep, no_input=True)
